@@ -37,7 +37,7 @@ func cfg1(base Cfg) []Cfg {
 			out = append(out, c)
 		}
 	}
-	for _, sh := range []int{1, 2, 3, 16, 2048} {
+	for _, sh := range []int{1, 2, 3, 16} {
 		if sh != base.Shards {
 			c := base
 			c.Shards = sh
